@@ -10,6 +10,12 @@
 (*        rules (genuine property of the table) and under a parser that       *)
 (*        ignores payload lengths.                                            *)
 (*   Mode "keys":  address terms for keys (Key / BIP49 / BIP84 address()).    *)
+(*   Mode "hist":  sessions on ONE key object and its public copy: a sequence *)
+(*        of questions (address / hash in the compressed, uncompressed or     *)
+(*        default form) with copies taken in between; the rules give every    *)
+(*        answer from the key and the requested form alone, so the export     *)
+(*        lists, per question, the forms whose address may be answered -      *)
+(*        independent of the network (the terms are those of mode "keys").    *)
 (*   Mode "lemma": nothing is printed; RoundTrip / KindsApart / CrossOk are   *)
 (*        invariants (used with the synthetic tables: "sane" must satisfy     *)
 (*        them, "clash" and "multibyte" must violate them).                   *)
@@ -43,12 +49,25 @@ Firsts(K) == IF IsB58Kind(K) THEN SecondBytes \cup {0, Fill, 255} ELSE {0, Fill,
 Hash(len, first) == IF len = 0 THEN <<>> ELSE <<first>> \o Rep(Fill, len - 1)
 
 \* ---- cases -----------------------------------------------------------------
-\* c = [n, kind, len, first, ver, var]: the text AddrOf would give with these (possibly wrong) ingredients
+\* c = [n, kind, len, first, ver, var, pd]: the text AddrOf would give with these (possibly wrong) ingredients.
+\* pd (segwit texts): how the data symbols deviate from the 8-to-5 regrouping of the program - `or` is added into the
+\* padding bits of the last symbol (0: none; always below 2^PadBits, so no program bit changes), `ext` are further
+\* symbols appended.  What such a symbol sequence IS (a program of another length, or nothing) is B!To8's verdict.
+NoPd == [or |-> 0, ext |-> <<>>]
+PadBits(len) == (5 - ((8 * len) % 5)) % 5
+OrVals(len) == IF PadBits(len) = 0 THEN {} ELSE {1, 2 ^ (PadBits(len) - 1), 2 ^ PadBits(len) - 1}
+SymsOf(cs) == LET base == B!To5(Hash(cs.len, cs.first)) IN
+  (IF cs.pd.or = 0 THEN base ELSE [base EXCEPT ![Len(base)] = @ + cs.pd.or]) \o cs.pd.ext
+SegText(hrp, ver, syms, var) == LET cv == B!To8(syms) IN
+  IF cv.ok THEN Seg(hrp, ver, cv.bytes, var) ELSE SegX(hrp, ver, syms, var)
 Text(cs) == LET N == Nets[cs.n] IN
   IF IsB58Kind(cs.kind) THEN B58(N.chk, Pfx(N, cs.kind) \o Hash(cs.len, cs.first))
-  ELSE Seg(N.hrp, cs.ver, Hash(cs.len, cs.first), cs.var)
-Good(cs) == cs.len = HashLen(cs.kind) /\ (IsB58Kind(cs.kind) \/ (cs.ver = WitVer(cs.kind) /\ cs.var = Variant(cs.kind)))
-Case(n, K, len, first, ver, var) == [n |-> n, kind |-> K, len |-> len, first |-> first, ver |-> ver, var |-> var]
+  ELSE IF cs.pd = NoPd THEN Seg(N.hrp, cs.ver, Hash(cs.len, cs.first), cs.var)
+  ELSE SegText(N.hrp, cs.ver, SymsOf(cs), cs.var)
+Good(cs) == /\ cs.len = HashLen(cs.kind) /\ cs.pd = NoPd
+            /\ (IsB58Kind(cs.kind) \/ (cs.ver = WitVer(cs.kind) /\ cs.var = Variant(cs.kind)))
+CaseP(n, K, len, first, ver, var, pd) == [n |-> n, kind |-> K, len |-> len, first |-> first, ver |-> ver, var |-> var, pd |-> pd]
+Case(n, K, len, first, ver, var) == CaseP(n, K, len, first, ver, var, NoPd)
 CasesOf(n) ==
   LET N == Nets[n] IN
   UNION {
@@ -61,10 +80,14 @@ CasesOf(n) ==
          \cup {Case(n, K, HashLen(K), Fill, WitVer(K), IF Variant(K) = "bech32" THEN "bech32m" ELSE "bech32")}
          \cup (IF K = "p2tr" THEN {Case(n, K, 32, Fill, v, "bech32m") : v \in {2, 16}}
                                \cup {Case(n, K, 20, Fill, 1, "bech32m")} ELSE {})
+         \* the program of a good address, spelt with other padding: non-zero padding bits, one more symbol
+         \cup {CaseP(n, K, HashLen(K), Fill, WitVer(K), Variant(K), [or |-> v, ext |-> <<>>]) : v \in OrVals(HashLen(K))}
+         \cup {CaseP(n, K, HashLen(K), Fill, WitVer(K), Variant(K), [or |-> 0, ext |-> <<x>>]) : x \in {0, 31}}
     : K \in AddrKindSet }
 AllCases == UNION {CasesOf(n) : n \in NetIds}
 
-SegChars(S) == B!Bech32Encode(S.hrp, <<S.ver>> \o B!To5(S.d), IF S.var = "bech32" THEN B!BECH32 ELSE B!BECH32M)
+SegChars(S) == B!Bech32Encode(S.hrp, <<S.ver>> \o (IF S.e = "segx" THEN S.d ELSE B!To5(S.d)),
+                             IF S.var = "bech32" THEN B!BECH32 ELSE B!BECH32M)
 TextTerm(S) == IF S.e = "b58c" THEN [op |-> "b58c", chk |-> S.var, a |-> Bytes(S.d)] ELSE [op |-> "chars", a |-> SegChars(S)]
 
 Tok(x) == IF IsPush(x) THEN <<"push", x.len, x.enc, x.id>> ELSE <<"op", x.n>>
@@ -88,15 +111,36 @@ Expect(cs, S) == [i \in NetIds |->
 \* ---- keys --------------------------------------------------------------------
 Keys == JsonDeserialize(IOEnv.KEY_TABLE)   \* [secc |-> bytes, secu |-> bytes] (points computed by the harness)
 
+\* ---- sessions on one key object ------------------------------------------------
+\* The object k is made from a secret exponent ("key": a plain private key created with the compression mark `marked`;
+\* "bip32": a private hierarchical node, always marked compressed); p is k's public copy, taken by the op "copy" (a
+\* later "copy" replaces it).  ask(o, f): the address and the hash of object o in form f ("c" compressed, "u"
+\* uncompressed, "d" the object's default).  RULE: the address of a key is a function of the key and the form only -
+\* the answer is KeyAddrTerm over the SEC serialisation of that form, whatever was asked before and of whichever
+\* object.  The default form of k is the mark it was created with; the property does not say which mark a copy
+\* carries, so for ask(p, "d") either form's address is allowed.
+MaxHist == 3
+HForms == {"c", "u", "d"}
+HAsk(o, f) == [a |-> "ask", o |-> o, f |-> f]
+HCopy == [a |-> "copy", o |-> "k", f |-> ""]
+HOps == {HAsk(o, f) : o \in {"k", "p"}, f \in HForms} \cup {HCopy}
+HWellFormed(ops) == /\ ops[Len(ops)].a = "ask"
+                    /\ \A i \in DOMAIN ops : ops[i].o = "p" => \E j \in 1..(i - 1) : ops[j] = HCopy
+HSeqs == {ops \in UNION {[1..l -> HOps] : l \in 1..MaxHist} : HWellFormed(ops)}
+AllowedForms(marked, o, f) == IF f # "d" THEN {f} ELSE IF o = "k" THEN {IF marked THEN "c" ELSE "u"} ELSE {"c", "u"}
+HistCases == {[obj |-> "key", marked |-> m, ops |-> ops] : m \in BOOLEAN, ops \in HSeqs}
+             \cup {[obj |-> "bip32", marked |-> TRUE, ops |-> ops] : ops \in HSeqs}
+
 InitCases == phase = "cases" /\ c \in AllCases
+InitHist  == phase = "hist" /\ c \in HistCases
 InitKeys  == phase = "keys" /\ c \in {[n |-> n, key |-> k] : n \in NetIds, k \in DOMAIN Keys}
 InitLemma == phase = "lemma" /\ c \in UNION {{[tab |-> t, n |-> n, m |-> m] : n \in DOMAIN NetsOf(t), m \in DOMAIN NetsOf(t)} : t \in Table}
 Init == /\ done = FALSE
-        /\ CASE Mode = "cases" -> InitCases [] Mode = "keys" -> InitKeys [] Mode = "lemma" -> InitLemma
+        /\ CASE Mode = "cases" -> InitCases [] Mode = "keys" -> InitKeys [] Mode = "lemma" -> InitLemma [] Mode = "hist" -> InitHist
 
 EmitCase == LET S == Text(c) N == Nets[c.n] IN
   PrintT(ToJson([k |-> "case", n |-> N.sym, kind |-> c.kind, good |-> Good(c), len |-> c.len, first |-> c.first,
-                 ver |-> c.ver, var |-> c.var, h |-> Hash(c.len, c.first), text |-> TextTerm(S),
+                 ver |-> c.ver, var |-> c.var, pd |-> c.pd, h |-> Hash(c.len, c.first), text |-> TextTerm(S),
                  script |-> IF Good(c) THEN ScriptOf(c.kind) ELSE <<>>,
                  rt |-> IF Good(c) THEN RoundTrip(N, c.kind, Hash(c.len, c.first)) ELSE TRUE,
                  expect |-> Expect(c, S)]))
@@ -111,9 +155,12 @@ EmitKey == LET N == Nets[c.n] K == Keys[c.key] IN
                  \* may not answer with the address of another hash)
                  bip49_u |-> IF Defined(N, "p2sh") THEN <<Bip49AddrTerm(N, K.secu)>> ELSE <<>>,
                  bip84_u |-> IF Defined(N, "p2wpkh") THEN <<Bip84AddrTerm(N, K.secu)>> ELSE <<>>]))
+EmitHist == PrintT(ToJson([k |-> "hist", obj |-> c.obj, marked |-> c.marked,
+                           ops |-> [i \in DOMAIN c.ops |-> [a |-> c.ops[i].a, o |-> c.ops[i].o, f |-> c.ops[i].f,
+                                     allow |-> IF c.ops[i].a = "ask" THEN AllowedForms(c.marked, c.ops[i].o, c.ops[i].f) ELSE {}]]]))
 \* one export step per case (the print is the last conjunct: every variable is determined)
 Export == /\ ~done /\ done' = TRUE /\ UNCHANGED <<c, phase>>
-          /\ CASE phase = "cases" -> EmitCase [] phase = "keys" -> EmitKey [] OTHER -> TRUE
+          /\ CASE phase = "cases" -> EmitCase [] phase = "keys" -> EmitKey [] phase = "hist" -> EmitHist [] OTHER -> TRUE
 Next == Export
 Spec == Init /\ [][Next]_vars
 
